@@ -1299,6 +1299,7 @@ fn write_evidence(
             "print_abandoned_after_first_item",
             "print_failed_by_fault",
             "transparent_fault_absorbed",
+            "assignment_overflow_after_call_returned",
         ],
         "C16" => &[
             "comma_at_column_13",
